@@ -507,6 +507,49 @@ def rule_x14(text, log):
     return text[:mm.start()] + new + text[mm.end():]
 
 
+def nested_fn_items(text):
+    """[(name, start, end)] of `fn` items declared directly in the body of the function `text` (rule X15)"""
+    m = mask(text)
+    bo = body_open(text)
+    if bo < 0:
+        return []
+    close = match_close(m, bo)
+    res = []
+    k = bo + 1
+    depth = 0
+    while k < close:
+        c = m[k]
+        if c == '{':
+            depth += 1
+        elif c == '}':
+            depth -= 1
+        elif depth == 0:
+            mm = re.compile(r'((?:#\[[^\]]*\]\s*)*)(?:pub\s+)?fn\s+([A-Za-z_][A-Za-z0-9_]*)').match(m, k)
+            if mm and (k == bo + 1 or not (m[k - 1].isalnum() or m[k - 1] == '_')):
+                # the item runs to the close of its own body
+                rel = body_open(text[mm.start():close])
+                if rel >= 0:
+                    e = match_close(m, mm.start() + rel)
+                    res.append((mm.group(2), mm.start(), e + 1))
+                    k = e + 1
+                    continue
+        k += 1
+    return res
+
+
+def rule_x15(text, log):
+    """X15: `fn` items nested in a function body are emitted at module level (addressed as `outer :: inner` by their own fn
+    directive) and removed from the enclosing body.  Item position does not affect Rust semantics; the names must not clash
+    with module-level items (rustc rejects a clash)."""
+    items = nested_fn_items(text)
+    out = text
+    for name, a, b in sorted(items, key=lambda t: -t[1]):
+        out = out[:a] + out[b:]
+    if items:
+        log.append({'rule': 'X15', 'before': 'nested fn items: ' + ", ".join(n for n, _, _ in items), 'after': 'hoisted to module level'})
+    return out
+
+
 def rule_x13(text, log):
     """by-value `mut self` (rejected by Verus 0.2026.09.13): the parameter is written `self` and moved into a mutable local
     that the body uses instead: `fn f(mut self) { B }` -> `fn f(self) { let mut __self = self; B[self := __self] }`"""
@@ -597,9 +640,10 @@ def resolve_anchor(text, anchor):
         return {'before': kw, 'after': cb + 1, 'start': ob + 1, 'end': cb}[a[2]]
     if a[0] == 'call':
         k, callee, where = int(a[1]), a[2], a[3]
-        idx = -1
+        idx = -1 if scope is None else scope
+        lim = len(m) if scope is None else match_close(m, scope)
         for _ in range(k):
-            mm = re.compile(r'(?<![A-Za-z0-9_])' + re.escape(callee) + r'\s*(?:::<[^>]*>)?\(').search(m, idx + 1)
+            mm = re.compile(r'(?<![A-Za-z0-9_])' + re.escape(callee) + r'\s*(?:::<[^>]*>)?\(').search(m, idx + 1, lim)
             if not mm:
                 raise LostAnchor("lost anchor: call %d of %s" % (k, callee))
             idx = mm.start()
@@ -770,6 +814,8 @@ def apply_rules(text, flags, log, path):
         text = rule_x13(text, mylog)
     if 'x14' in flags:
         text = rule_x14(text, mylog)
+    if 'x15' in flags:
+        text = rule_x15(text, mylog)
     if 'x10' in flags:
         v = flags['x10']
         text = rule_x10(text, mylog, v if isinstance(v, str) else None)
@@ -895,10 +941,22 @@ def build_unit(template_text, expansions, twin=False):
                     cur.append(l2)
                 i += 1
             exp = expansions[meta['profile']]
-            it = exp.find(path)
+            inner = None
+            if '::' in path[-1]:
+                # `outer :: inner`: a fn item nested in the body of `outer` (rule X15)
+                outer, inner = [t.strip() for t in path[-1].split('::')]
+                it = exp.find(path[:-1] + [outer])
+            else:
+                it = exp.find(path)
             if it.kind != 'fn':
                 raise LostAnchor("not a fn: %s" % path)
             text = strip_x1_x2(it.text())
+            if inner is not None:
+                cands = [(a, b) for nme, a, b in nested_fn_items(text) if nme == inner]
+                if not cands:
+                    raise LostAnchor("lost anchor: nested fn %s in %s" % (inner, outer))
+                text = text[cands[0][0]:cands[0][1]]
+                text = re.sub(r'^\s*#\[inline[^\]]*\]\s*', '', text)
             if 'pub' in flags and not re.match(r'\s*pub ', text):
                 text = re.sub(r'^(\s*)', r'\1pub ', text, count=1)
             text = apply_rules(text, flags, meta['rules'], path)
